@@ -4369,7 +4369,7 @@ class Frame(ContainerOperand):
             return Frame(frame_sorted._blocks._extract(column_key=key),
                     columns=index,
                     index=self._index,
-                    own_columns=True,
+                    own_columns=self.STATIC, # own if static
                     own_index=True,
                     own_data=True,
                     )
